@@ -17,6 +17,8 @@ def build(ctx):
         "D": {"key_mgr": M.delegation((1, 2, 3), 2), "Key_mgr": M.delegation((0,), 1), "key_mgr ": M.delegation((0,), 1)},
         # thresholds the listed keys cannot reach, an empty key list, integral-float and bool thresholds
         "E": {"key_mgr": M.delegation((1,), 2), "pkg_mgr": M.delegation((1, 2), 3), "root": M.delegation((), 1)},
+        # a reachable rule for one role next to drafts for OTHER roles that nobody can meet yet: only the named role's rule counts
+        "G": {"key_mgr": M.delegation((1, 2), 1), "pkg_mgr": M.delegation((3,), 2), "root": M.delegation((), 1), "auditor": M.delegation((0,), 3)},
         "F": {"key_mgr": M.delegation((1, 2), True), "pkg_mgr": M.delegation((2, 3), 2.0), "root": M.delegation((0, 1, 2, 3), 4)},
     }
     names = ["key_mgr", "root", "pkg_mgr", "Key_mgr", "key_mgr ", "", "ключ", "nope", 5, None, b"key_mgr",
